@@ -131,8 +131,18 @@ def run(ctx: Context) -> None:
         se = h2.methods["_receive_stream_event"]
         rs = [r for r in own_nodes(se.node) if isinstance(r, ast.Raise) and "RemoteProtocolError" in norm(r)]
         ok = bool(rs) and "isinstance(event,h2.events.StreamReset)" in guard_atoms(guards_of(rs[0]))
-        pops = [c for c in own_nodes(se.node) if isinstance(c, ast.Call) and norm(c.func) == "self._events[stream_id].pop" and [norm(a) for a in c.args] == ["0"]]
-        rep.ob("C02.R2", fkey(tree, se, "reset-raises"), ok and bool(pops), where(se), "events are taken in arrival order (pop(0)) and a reset stream raises RemoteProtocolError")
+        # FIFO: the queue kind is read off the stores into the stream table (`[]` -> list, taken with pop(0); `deque()` -> taken with popleft())
+        kinds = set()
+        for m_ in h2.methods.values():
+            for a_ in own_nodes(m_.node):
+                if isinstance(a_, ast.Assign) and any(isinstance(t_, ast.Subscript) and norm(t_.value) == "self._events" for t_ in a_.targets):
+                    v_ = norm(a_.value)
+                    kinds.add("list" if v_ == "[]" else "deque" if v_ in ("deque()", "collections.deque()") else v_)
+        takes = [c for c in own_nodes(se.node) if isinstance(c, ast.Call) and isinstance(c.func, ast.Attribute) and norm(c.func.value) == "self._events[stream_id]" and c.func.attr in ("pop", "popleft")]
+        fifo = len(kinds) == 1 and len(takes) >= 1 and all((kinds == {"list"} and c.func.attr == "pop" and [norm(a) for a in c.args] == ["0"]) or
+                                                            (kinds == {"deque"} and c.func.attr == "popleft" and not c.args) for c in takes)
+        rep.ob("C02.R2", fkey(tree, se, "reset-raises"), ok and fifo, where(se), "events are taken in arrival order (pop(0) of a list / popleft() of a deque) and a reset stream raises RemoteProtocolError"
+               if ok and fifo else f"queue kind {sorted(kinds)}, taken with {[norm(c) for c in takes]}; reset raises: {ok}")
         # ---- R3 header loops
         hh = h11.methods["_receive_response_headers"]
         for l in [x for x in loops_of(hh) if isinstance(x, ast.While)]:
